@@ -41,6 +41,7 @@ type HistConfig struct {
 	PClock         float64 // an edit whose file clock is kept, far in the past or in the future; same-size edit motif
 	PProtect       float64 // generated files of a package become read-only, or get clocks from the future / the past
 	Cgo            bool    // one package gets a file that imports "C"
+	TwoModules     bool    // a second local module (replace directive or go.work), imported by the main one; entrypoints in the main module
 }
 
 func schedOf(policy string, seed uint64) simrt.Schedule {
@@ -131,7 +132,7 @@ func (w *histWorld) drawRun(r *Rng, cfg HistConfig) *RunOp {
 		// select only packages that import something: their dependencies are local but not direct
 		var importers []int
 		for pi, p := range w.m.Pkgs {
-			if len(p.Imports) > 0 {
+			if len(p.Imports) > 0 && !p.InSub {
 				importers = append(importers, pi)
 			}
 		}
@@ -278,6 +279,21 @@ func DrawHistory(r *Rng, cfg HistConfig) (*Scenario, *histWorld) {
 	}
 	if cfg.Cgo {
 		AddCgoFile(r, m)
+	}
+	if cfg.TwoModules && m.Sub == nil {
+		scfg := DrawSpecConfig(r, names, base)
+		nMain := len(m.Pkgs)
+		addSubModule(r, scfg, m)
+		m.Workspace = r.P(0.6)
+		// some package of the main module imports the other module's packages
+		for _, pi := range r.Perm(nMain)[:r.Range(1, nMain)] {
+			m.Pkgs[pi].Imports = append(m.Pkgs[pi].Imports, nMain+r.Intn(2))
+		}
+		gens = []proto.GenScript{Probe()}
+		sc2 := DrawScriptConfig(r)
+		for _, n := range names {
+			gens = append(gens, DrawScript(r, sc2, m, n))
+		}
 	}
 	w := &histWorld{m: m, names: names, gens: gens, base: base}
 	sc := &Scenario{Kind: "history", Module: m, Base: base}
@@ -586,7 +602,11 @@ func SimC07(c *CheckCtx, i int, r *Rng) error {
 		// cache-centred histories touch the tree in other ways (subset runs, corrupt sums)
 		return SimC08(c, i, r)
 	}
-	return runHistory(c, i, r, HistConfig{MinOps: 3, MaxOps: 7, PAll: 0.6, PForce: 0.3, PGlobals: 0.2, PSubsetGens: 0.5, PEdit: 0.15, PStale: 0.25,
+	two := i%12 == 7
+	if two {
+		c.Env.Stats.Add("probe/two-module-world", 1)
+	}
+	return runHistory(c, i, r, HistConfig{TwoModules: two, MinOps: 3, MaxOps: 7, PAll: 0.6, PForce: 0.3, PGlobals: 0.2, PSubsetGens: 0.5, PEdit: 0.15, PStale: 0.25,
 		PSumOps: 0.05, PBreak: 0.08, PGenFault: 0.12, PIOFault: 0.12, PKill: 0.1, PConverge: 0.2, PMute: 0.35, PDepOutside: 0.5, PReal: 0.1, PUniform: 0.3, PCancel: 0.05, PWarm: 0.1, PLinkOut: 0.1, PCwd: 0.2, PClock: 0.1, PProtect: 0.08})
 }
 
